@@ -15,8 +15,9 @@ def showK (K : Kernel) : String :=
   "K{" ++ ";".intercalate ((sortMap K).map (fun p =>
     s!"{p.1}={p.2.ifindex}/{if p.2.gw == "" then "-" else p.2.gw}/{p.2.proto}/{p.2.kind}")) ++ "}"
 
+def stripPrio (k : String) : String := (k.splitOn "@").headD k
 def showR (m : Map KRoute) : String :=
-  "{" ++ ";".intercalate ((sortMap m).map (fun p =>
+  "{" ++ ";".intercalate ((sortMap (m.map (fun p => (stripPrio p.1, p.2)))).map (fun p =>
     s!"{p.1}={p.2.ifindex}/{if p.2.gw == "" then "-" else p.2.gw}/{p.2.proto}/{p.2.kind}")) ++ "}"
 
 def showAll (w : W) : String :=
@@ -43,9 +44,9 @@ def parseOp (line : String) : Option Op :=
   | ["set", cls, ifc, ws] =>
     cls.toNat?.map (fun cls =>
       Op.set cls ifc ((splitList "," ws).filterMap (fun s => match s.splitOn "~" with
-        | [c, g, k] => some (⟨cls, ifc, c, gwOf g, k⟩ : Want)
+        | [c, g, k] => some (⟨cls, ifc, c, gwOf g, k, c⟩ : Want)
         | _ => none)))
-  | ["upd", cls, ifc, c, g, k] => cls.toNat?.map (fun cls => Op.upd ⟨cls, ifc, c, gwOf g, k⟩)
+  | ["upd", cls, ifc, c, g, k] => cls.toNat?.map (fun cls => Op.upd ⟨cls, ifc, c, gwOf g, k, c⟩)
   | ["rem", cls, ifc, c] => cls.toNat?.map (fun cls => Op.rem cls ifc c)
   | ["resync"] => some Op.resync
   | ["apply", fs] =>
@@ -56,6 +57,7 @@ def parseOp (line : String) : Option Op :=
 def step (w : W) (line : String) : W × String :=
   match words line with
   | ["new", rm] => ({ t := { pol := mkPolicy (rm == "1"), defProto := 80 }, kif := [("lo", ⟨1, true⟩)] }, "ok")
+  | ["new", rm, v] => ({ t := { pol := mkPolicy (rm == "1"), defProto := 80, v6 := v == "6" }, kif := [("lo", ⟨1, true⟩)] }, "ok")
   | _ =>
     match parseOp line with
     | none => (w, "bad-op")
